@@ -168,6 +168,14 @@ pub fn damaged_workspace(r: &mut Rng) -> DamagedWs {
             }
         }
     }
+    // two modules with byte-identical text (copy-pasted boilerplate): everything keyed by
+    // content instead of by file must still keep them apart
+    if files.len() >= 2 && r.chance(1, 8) {
+        let from = r.below(files.len());
+        let to = (from + 1 + r.below(files.len() - 1)) % files.len();
+        files[to].1 = files[from].1.clone();
+        ops.push("identical-twin-file".into());
+    }
     // a UTF-8 byte order mark in front of a file (editors on Windows write it): every
     // offset the analysis reports must still refer to the text it was given
     if r.chance(1, 5) {
